@@ -66,10 +66,52 @@ let parse_dir () : tfile list =
     let stmts = Stdlib.List.init ns (fun _ -> ()) |> Stdlib.List.map (fun () -> bytes_of_string (unhex (next ()))) in
     { tf_file = { f_version = v; f_stmts = stmts; f_ckpt = ckpt }; tf_directive = dir; tf_bad = bad })
 
+let show_exit = function
+  | ADone -> "ok" | APend PNoPending -> "ok" | AFail _ -> "fail" | ADirective -> "fail" | APend _ -> "fail"
+
+(* dry stage: "D nsteps {mode n dry baseline allow dirty dir}" | "S txmode fk viol N bad canon_0..canon_N" *)
+let run_dry_line id =
+  match next () with
+  | "D" ->
+    let nsteps = next_int () in
+    let st = ref { cd_revtable = false; cd_db = { d_journal = []; d_tbl = [] } } in
+    for i = 0 to nsteps - 1 do
+      let mode = mode_of (next ()) in
+      let n = next_int () in
+      let dry = next () = "1" in
+      let baseline = match next () with "-" -> None | h -> Some (bytes_of_string (unhex h)) in
+      let allow = next () = "1" in
+      let dirty = next () = "1" in
+      let dir = parse_dir () in
+      let cf = { c_order = Linear; c_baseline = baseline; c_allow_dirty = allow; c_dirty = dirty } in
+      let (o, d') = migrate_apply heq hs dry mode (nat_of_int n) cf dir !st in
+      st := d';
+      Printf.printf "%s step%d exit=%s table=%s %s\n" id i (show_exit o) (b2s d'.cd_revtable) (show_db d'.cd_db)
+    done
+  | "S" ->
+    let txmode = mode_of (next ()) in
+    let fk = next () = "1" in
+    let viol = next () = "1" in
+    let n = next_int () in
+    let bad = match next () with "-" -> None | k -> Some (nat_of_int (int_of_string k)) in
+    let canon = Array.init (n + 1) (fun _ -> next_int ()) in
+    let stmts = Stdlib.List.init n (fun i -> bytes_of_string (string_of_int i)) in
+    let ((o, d'), _) = apply_changes txmode stmts bad viol { s_effects = []; s_fk = fk } in
+    let ex = match o with SOk -> "ok" | _ -> "fail" in
+    Printf.printf "%s exit=%s state=%d\n" id ex canon.(Stdlib.List.length d'.s_effects)
+  | t -> failwith ("dry line kind " ^ t)
+
 let () =
+  let dry_stage = Array.length Sys.argv > 1 && Sys.argv.(1) = "dry" in
   (try
     while true do
       let line = input_line stdin in
+      if line <> "" && dry_stage then begin
+        toks := Array.of_list (Stdlib.List.filter (fun s -> s <> "") (String.split_on_char ' ' line));
+        pos := 0;
+        let id = next () in
+        run_dry_line id
+      end else
       if line <> "" then begin
         toks := Array.of_list (Stdlib.List.filter (fun s -> s <> "") (String.split_on_char ' ' line));
         pos := 0;
